@@ -11,6 +11,14 @@ from lib import vcommon
 import glob, os, sys
 probs = vcommon.run_translators()
 for p in probs: print(p)
+# C13's knob file is written by its own harness (checks/C13.py does the same before building)
+try:
+    from harness import chanfault as H
+    src = vcommon.SRC
+    with vcommon.Lock("gen"):
+        print("knobs", H.write_knobs(src, os.path.join(vcommon.COQ, "Gen", "GenChanKnobs.v")))
+except Exception as e:
+    print("knob writer failed:", e)
 vcommon.ensure_makefile()
 targets = [f + "o" for f in vcommon.coq_files()]
 ok, failing, log = vcommon.coq_make(targets, timeout=3000)
